@@ -464,6 +464,8 @@ def b18_case(spec):
             SP, _, _ = tensors(radius)
             assign(*s1)
             S1, centres, bins = tensors(radius) if grid <= 4 else (None, None, None)
+            if grid <= 6:           # an earlier call with another grid on the same frame must leave nothing behind
+                frame.calculate_stress_tensor(grid + 1, radius)
             frame.calculate_stress_tensor(grid, radius)
             PS = dict(frame.principal_stress)
             if S1 is None:          # large grids: take the frame's own copy of the tensors it diagonalised
